@@ -98,6 +98,14 @@ func Genesis(app *chain.App, variant string) map[string]json.RawMessage {
 		set("regen.ecocredit.v1.Project", []interface{}{1, m{"key": 1, "id": "C09-099", "admin": admin.Bytes(), "class_key": 1, "jurisdiction": "US", "metadata": "p", "reference_id": ""}})
 		set("regen.ecocredit.v1.ProjectSequence", []m{{"class_key": 1, "next_sequence": 100}})
 		set("regen.ecocredit.v1.BatchSequence", []m{{"project_key": 1, "next_sequence": 999}})
+		// a batch that exists only through the genesis file, with the zero columns of its supply and balance
+		// rows left EMPTY (accepted by the module's ValidateGenesis; no message writes rows like these)
+		set("regen.ecocredit.v1.Batch", []interface{}{1, m{"key": 1, "issuer": admin.Bytes(), "project_key": 1, "denom": "C09-099-20200101-20210101-998", "metadata": "g",
+			"start_date": "2020-01-01T00:00:00Z", "end_date": "2021-01-01T00:00:00Z", "issuance_date": "2021-06-01T00:00:00Z", "open": true}})
+		set("regen.ecocredit.v1.BatchSupply", []m{{"batch_key": 1, "tradable_amount": "170", "retired_amount": "30", "cancelled_amount": ""}})
+		set("regen.ecocredit.v1.BatchBalance", []m{
+			{"batch_key": 1, "address": ActorAddr(3).Bytes(), "tradable_amount": "100", "retired_amount": "", "escrowed_amount": ""},
+			{"batch_key": 1, "address": ActorAddr(4).Bytes(), "tradable_amount": "70", "retired_amount": "30", "escrowed_amount": ""}})
 	default:
 		panic("unknown genesis variant " + variant)
 	}
@@ -237,6 +245,25 @@ func (g *Gen) Bootstrap(e *eng.Engine, refresh func()) {
 				{BatchDenom: b.Denom, Quantity: "7.5", AskPrice: coin("stake", 3), DisableAutoRetire: true},
 				{BatchDenom: b.Denom, Quantity: "2.000001", AskPrice: coin("uregen", 1000001), DisableAutoRetire: false, Expiration: &exp},
 			}})
+		}
+	}
+	// one auto-retiring purchase from the oldest batch of the chain (in the "prefix" genesis that is the
+	// batch that only exists through the genesis file, with empty zero columns)
+	if len(g.V.BatchList) > 0 {
+		first := g.V.BatchList[0]
+		for _, o := range g.V.OrderList {
+			if o.BatchKey == first.Key && !o.DisableAutoRetire {
+				if mk := g.V.Markets[o.MarketId]; mk != nil {
+					ask, _ := new(big.Int).SetString(o.AskAmount, 10)
+					if ask == nil {
+						break
+					}
+					bid := sdk.Coin{Denom: mk.BankDenom, Amount: sdk.NewIntFromBigInt(ask)}
+					mf := sdk.Coin{Denom: mk.BankDenom, Amount: sdk.NewIntFromBigInt(new(big.Int).Mul(ask, big.NewInt(2)))}
+					ex("buy-auto-retire", &markettypes.MsgBuyDirect{Buyer: A[6], Orders: []*markettypes.MsgBuyDirect_Order{{SellOrderId: o.Id, Quantity: "1", BidPrice: &bid, DisableAutoRetire: false, RetirementJurisdiction: "US", MaxFeeAmount: &mf}}})
+				}
+				break
+			}
 		}
 	}
 	// a batch whose whole supply sits in a basket: every account balance of it is zero, nothing retired
